@@ -253,3 +253,68 @@ Fixpoint iter_run (nx : list Z) (k : nat) (it : Z) : list (list Z) :=
   | O => []
   | S k' => let r := iter_next nx it in fst r :: iter_run nx k' (snd r)
   end.
+
+(* ------------------------------------------------------------------ sessions of const queries on one object
+   Every query below is a const method of Grid / DbGrid (the iterator query is the self-contained sequence
+   iteratorInit(); k x iteratorNext()).  The C++ object carries scratch vectors (_iwork0, _work1, _work2) shared
+   by these methods; the model has no such state: [eval_query] is a function of the grid and the query only. *)
+(* Grid::getCenterIndices: (nx - 1) / 2 *)
+Definition center_indices (g : grid) : list Z := map (fun n => Z.quot (n - 1) 2) (g_nx g).
+
+Inductive query :=
+| QGetCoordinate (rank : Z) (idim : nat)                 (* Grid::getCoordinate(rank, idim) / DbGrid::getCoordinate / rankToCoordinate *)
+| QRankToIndice (rank : Z)
+| QIndiceToRank (ind : list Z)
+| QCoordinateToRank (coor : list Q) (centered : bool) (eps : Q)
+| QCoordinateToIndices (coor : list Q) (centered : bool) (eps : Q)
+| QCoordinatesByRank (rank : Z)                          (* getCoordinatesByRank / rankToCoordinates / getCoordinatesPerSample *)
+| QCoordinatesByIndice (ind : list Z)
+| QCoordinatesByCorner (icorner : list Z)
+| QBelongs (coor : list Q) (rank : Z)
+| QCenterIndices
+| QMultiple (nmult : list Z) (flagCell : bool)
+| QDivider (nmult : list Z) (flagCell : bool)
+| QDilate (nshift : list Z) (mode : Z)
+| QIndicesToCoordinate (ind : list Z) (percent : list Q)
+| QCellCorner (rank : Z) (shift : list Z)
+| QIterate (k : nat)
+| QIndiceToCoordinate (ind : list Z) (idim : nat)
+| QPointToGrid (coor : list Q).
+
+Inductive answer :=
+| AZ (z : Z) | AZs (l : list Z) | AQ (q : Q) | AQs (l : list Q) | AB (b : bool)
+| AOutIdx (out : bool) (idx : list Z)
+| ADerived (p : option (list Z * list Q * list Q))
+| AZss (l : list (list Z)).
+
+Definition eval_query (g : grid) (q : query) : answer :=
+  match q with
+  | QGetCoordinate r d => AQ (nth d (rankToCoordinates g r []) 0)
+  | QRankToIndice r => AZs (rankToIndice (g_nx g) r false)
+  | QIndiceToRank i => AZ (indiceToRank (g_nx g) i)
+  | QCoordinateToRank c ce e => AZ (coordinateToRank g c ce e)
+  | QCoordinateToIndices c ce e => let r := c2i g c ce e in AOutIdx (fst r) (snd r)
+  | QCoordinatesByRank r => AQs (rankToCoordinates g r [])
+  | QCoordinatesByIndice i => AQs (coords_by_indice g i true [] [])
+  | QCoordinatesByCorner c => AQs (coords_by_corner g c)
+  | QBelongs c r => AB (belongs g c (rankToCoordinates g r []) [])
+  | QCenterIndices => AZs (center_indices g)
+  | QMultiple m fc => ADerived (Some (multiple g m fc))
+  | QDivider m fc => ADerived (Some (divider g m fc))
+  | QDilate s mode => ADerived (dilate g mode s)
+  | QIndicesToCoordinate i p => AQs (i2c g i p true)
+  | QCellCorner r s => AQs (coords_by_indice g (rankToIndice (g_nx g) r false) true s [])
+  | QIterate k => AZss (iter_run (g_nx g) k 0%Z)
+  | QIndiceToCoordinate i d => AQ (nth d (i2c g i [] true) 0)
+  | QPointToGrid c => let r := point_to_grid g c in AOutIdx (fst r) (snd r)
+  end.
+
+(* a session: the object answers the queries one after the other.  The session state records what the C++ object
+   remembers between calls (here: the queries already made); the answers never read it. *)
+Definition session_state := list query.
+Definition step (g : grid) (st : session_state) (q : query) : session_state * answer := (q :: st, eval_query g q).
+Fixpoint run_session (g : grid) (st : session_state) (qs : list query) : list answer :=
+  match qs with
+  | [] => []
+  | q :: r => let sa := step g st q in snd sa :: run_session g (fst sa) r
+  end.
